@@ -38,7 +38,9 @@ GrossRange(c, up) ==
     LET f    == Span(c.p.fail)
         hasS == IsGiven(c.p.susp)
         s    == IF hasS THEN Span(c.p.susp) ELSE f
-    IN  IF hasS /\ (s[1] < f[1] \/ s[2] > f[2])
+    IN  IF Len(c.p.fail) # 2                       \* a span is a pair (only the pipeline drivers hand over anything else)
+        THEN Raises("ValueError")
+        ELSE IF hasS /\ (s[1] < f[1] \/ s[2] > f[2])
         THEN Raises("ValueError")
         ELSE Ok([i \in 1..Len(c.x) |->
                  LET v == c.x[i] IN
